@@ -358,3 +358,9 @@ func fatClusterBytes(d *simdisk.Disk, start, size int64, ft int) int64 {
 	bps := int64(b[11]) | int64(b[12])<<8
 	return bps * int64(b[13])
 }
+
+// setHostMtime sets access and modification time of a workspace entry without following links.
+func setHostMtime(p string, t time.Time) {
+	ts := []unix.Timespec{{Sec: t.Unix()}, {Sec: t.Unix()}}
+	_ = unix.UtimesNanoAt(unix.AT_FDCWD, p, ts, unix.AT_SYMLINK_NOFOLLOW)
+}
